@@ -16,8 +16,8 @@ type rawOp struct {
 }
 
 type hooks struct {
-	mu sync.Mutex // the importer writes its batches from a background goroutine
-	writes   [][]rawOp // physical writes in order
+	mu       sync.Mutex // the importer writes its batches from a background goroutine
+	writes   [][]rawOp  // physical writes in order
 	record   bool
 	calls    int          // number of storage calls seen (Get, Has, iterator create/step, batch Set/Delete/Write, direct Set/Delete)
 	failAt   map[int]bool // calls (1-based) that fail
